@@ -12,4 +12,7 @@ PROP = {'gen_tables': ['SlogLevels'],
                  'encoder through a tee core',
                  'ioCore.With/Check/Write deliver context fields before entry fields (the real ioCore is in the loop; its own correctness is C05/C07)',
                  'convertSlogLevel is consumed as a regenerated table over -12..12 (levels outside are not generated)'],
- 'technique': 'Lean 4 refinement proof (handler model = slog.Handler contract, by induction on the derivation sequence) tied by Corr + a dynamic level table'}
+ 'technique': 'Lean 4 refinement proof (handler model = slog.Handler contract, by induction on the derivation sequence) tied by Corr + a dynamic level table',
+ 'level_text': 'handler_refines_contract is proved for every derivation sequence (branching included) and every record; the level map is decided over a table dumped from the running code.',
+ 'level_note': 'Resolve depth limit of 100 and levels between the sampled far-out points are not covered.',
+}
